@@ -76,6 +76,12 @@ Proof.
   inversion H; subst. constructor; auto. intros Hin. apply H2. now apply in_map.
 Qed.
 
+Lemma nodup_app_l {A} (l l' : list A) : NoDup (l ++ l') -> NoDup l.
+Proof.
+  induction l as [|x l IH]; simpl; intros H; [constructor|].
+  inversion H; subst. constructor; auto. intros Hin. apply H2. apply in_or_app. now left.
+Qed.
+
 Lemma existsb_false_forall {A} (f : A -> bool) (l : list A) :
   Forall (fun x => f x = false) l -> existsb f l = false.
 Proof. induction 1 as [|x l Hx _ IH]; simpl; [reflexivity|]. now rewrite Hx, IH. Qed.
@@ -167,6 +173,25 @@ Record mz_wf (T : tparams) (m : mz) : Prop := {
   wf_leaf : forall kk vv, In (kk, vv) (leaves (mz_tree m)) ->
       kk < tp_q T /\ vv < tp_q T /\ exists k e, In (k, e) (mz_entries m) /\ kk = hash_of_z k
 }.
+
+(* the part of the invariant that survives when OTHER parties add leaves to the tree
+   (a caller-provided tree shared between merklizers): no "every leaf is an entry" *)
+Record mz_in (T : tparams) (m : mz) : Prop := {
+  in_tree : wf (tp_maxlev T) (mz_tree m);
+  in_nodup : NoDup (map fst (mz_entries m));
+  in_member : forall k e, In (k, e) (mz_entries m) ->
+      entry_uses (mz_hasher m) e /\
+      hash_path (mz_hasher m) (p_parts (re_key e)) = Ok k /\ k < tp_q T /\
+      exists vh, mk_value_entry (mz_hasher m) (re_val e) = Ok vh /\ vh < tp_q T /\
+                 In (hash_of_z k, hash_of_z vh) (leaves (mz_tree m));
+  in_field : forall kk vv, In (kk, vv) (leaves (mz_tree m)) -> kk < tp_q T /\ vv < tp_q T
+}.
+
+Lemma mz_wf_in T m : mz_wf T m -> mz_in T m.
+Proof.
+  intros H. constructor; try apply H.
+  intros kk vv Hin. destruct (wf_leaf _ _ H _ _ Hin) as (A & B & _). auto.
+Qed.
 
 Section Inv.
 Variable T : tparams.
@@ -354,14 +379,14 @@ Qed.
 
 (* ---- consequences of the invariant ---- *)
 Variable m : mz.
-Hypothesis Hwf : mz_wf T m.
+Hypothesis Hwf : mz_in T m.
 
 Lemma t_gen_wf k :
   (1 <= maxlev)%nat -> k < q ->
   t_gen T (mz_tree m) k = Ok (gen hl hm (mz_tree m) 0 (hash_of_z k) []).
 Proof.
   intros Hml Hk. unfold t_gen, mt_gen. apply Z.leb_gt in Hk. rewrite Hk.
-  pose proof (gen_b_gen hl hm maxlev (mz_tree m) 0 (hash_of_z k) [] (wf_tree _ _ Hwf) ltac:(lia)) as G.
+  pose proof (gen_b_gen hl hm maxlev (mz_tree m) 0 (hash_of_z k) [] (in_tree _ _ Hwf) ltac:(lia)) as G.
   now rewrite Nat.sub_0_r in G.
 Qed.
 
@@ -378,7 +403,7 @@ Lemma verify_checked k v p v0 :
 Proof.
   intros Hok Hml Hk Hv Hg Hex.
   pose proof (completeness hl hm _ _ _ _ Hg) as Hc.
-  pose proof (gen_sibs_bound hl hm maxlev (mz_tree m) 0 (hash_of_z k) [] (wf_tree _ _ Hwf) ltac:(lia)) as Hlen.
+  pose proof (gen_sibs_bound hl hm maxlev (mz_tree m) 0 (hash_of_z k) [] (in_tree _ _ Hwf) ltac:(lia)) as Hlen.
   pose proof (gen_sibs_forall hl hm (fun s => (q <=? s) = false)
                 (fun t => proj2 (Z.leb_gt _ _) (root_lt_q Hok t)) (mz_tree m) 0 (hash_of_z k) []
                 (Forall_nil _)) as Hsib.
@@ -394,7 +419,7 @@ Proof.
     rewrite Hl, (existsb_false_forall (fun s => q <=? s) _ Hsib). injection Hc as Hc'. cbn [bind]. unfold mz_root, t_root. rewrite Hc', Z.eqb_refl. reflexivity.
   - destruct (aux p) as [(ak, av)|] eqn:Ha.
     + destruct (gen_aux_leaf hl hm _ _ _ _ _ _ _ _ Hg Ha) as (_ & Hne & _ & Hin).
-      destruct (wf_leaf _ _ Hwf _ _ Hin) as (A & B & _).
+      destruct (in_field _ _ Hwf _ _ Hin) as (A & B).
       destruct (Z.eqb_spec (hash_of_z k) ak) as [Heq|_]; [congruence|].
       apply Z.leb_gt in A, B. rewrite A, B. simpl.
       rewrite Hl, (existsb_false_forall (fun s => q <=? s) _ Hsib). injection Hc as Hc'. cbn [bind]. unfold mz_root, t_root. rewrite Hc', Z.eqb_refl. reflexivity.
@@ -412,30 +437,30 @@ Theorem proof_of_member Hd p k e :
     (tparams_ok T -> t_verify T (mz_root T m) pr k vh = Ok true).
 Proof.
   intros Hp Hin.
-  destruct (wf_member _ _ Hwf _ _ Hin) as (Hu & Hk & Hkq & vh & Hv & Hvq & Hleaf).
+  destruct (in_member _ _ Hwf _ _ Hin) as (Hu & Hk & Hkq & vh & Hv & Hvq & Hleaf).
   assert (Hml : (1 <= maxlev)%nat).
-  { destruct (wf_nonempty_maxlev maxlev _ _ (wf_tree _ _ Hwf)) as [He|]; auto.
+  { destruct (wf_nonempty_maxlev maxlev _ _ (in_tree _ _ Hwf)) as [He|]; auto.
     rewrite He in Hleaf. contradiction. }
   destruct (gen hl hm (mz_tree m) 0 (hash_of_z k) []) as (pr, v0) eqn:Hg.
   assert (Hex : ex pr = true).
-  { pose proof (gen_member hl hm maxlev (mz_tree m) 0 (hash_of_z k) [] (wf_tree _ _ Hwf)) as G.
+  { pose proof (gen_member hl hm maxlev (mz_tree m) 0 (hash_of_z k) [] (in_tree _ _ Hwf)) as G.
     rewrite Hg in G. apply G. apply in_keys. eauto. }
   assert (Hv0 : v0 = hash_of_z vh).
   { pose proof (gen_ex_leaf hl hm _ _ _ _ _ _ Hg Hex) as Hin0.
-    eapply nodup_fun; eauto. eapply wf_nodup_keys. exact (wf_tree _ _ Hwf). }
+    eapply nodup_fun; eauto. eapply wf_nodup_keys. exact (in_tree _ _ Hwf). }
   exists pr, vh. cbv zeta. split; [|split; [exact Hex|split; [exact Hv|split]]].
   - unfold mz_proof. rewrite Hp. simpl. rewrite (t_gen_wf k Hml Hkq), Hg. simpl. rewrite Hex.
-    rewrite (assoc_nodup k _ e (wf_nodup _ _ Hwf) Hin). reflexivity.
+    rewrite (assoc_nodup k _ e (in_nodup _ _ Hwf) Hin). reflexivity.
   - pose proof (completeness_verify hl hm _ _ _ _ Hg) as Hc. rewrite Hex, Hv0 in Hc. exact Hc.
   - intros Hok. eapply verify_checked; eauto.
-    intros _. destruct (wf_leaf _ _ Hwf _ _ Hleaf) as (A & B & _). auto.
+    intros _. destruct (in_field _ _ Hwf _ _ Hleaf) as (A & B). auto.
 Qed.
 
 (* ---- non-member paths ---- *)
 Theorem proof_of_nonmember Hd p k :
   (1 <= maxlev)%nat ->
   path_mt_entry Hd p = Ok k -> k < q ->
-  (forall k' e, In (k', e) (mz_entries m) -> hash_of_z k' <> hash_of_z k) ->
+  ~ In (hash_of_z k) (keys (mz_tree m)) ->
   exists pr,
     mz_proof T Hd m p = Ok (pr, None) /\ ex pr = false /\
     verify_proof hl hm (mz_root T m) pr (hash_of_z k) 0 = true /\
@@ -446,8 +471,7 @@ Proof.
   assert (Hex : ex pr = false).
   { destruct (ex pr) eqn:He; auto. exfalso.
     pose proof (gen_ex_leaf hl hm _ _ _ _ _ _ Hg He) as Hin0.
-    destruct (wf_leaf _ _ Hwf _ _ Hin0) as (_ & _ & k' & e & Hin & Heq).
-    apply (Hnm _ _ Hin). congruence. }
+    apply Hnm. apply in_keys. eauto. }
   exists pr. split; [|split; [exact Hex|split]].
   - unfold mz_proof. rewrite Hp. simpl. rewrite (t_gen_wf k Hml Hkq), Hg. simpl. now rewrite Hex.
   - pose proof (completeness_verify hl hm _ _ _ _ Hg) as Hc. now rewrite Hex in Hc.
@@ -479,6 +503,17 @@ Qed.
 
 End Inv.
 
+(* on the merklizer's own tree every leaf is an entry: "no member has this tree key"
+   is "the tree does not have this key" *)
+Lemma not_member_not_key T m : mz_wf T m -> forall k,
+  (forall k' e, In (k', e) (mz_entries m) -> hash_of_z k' <> hash_of_z k) ->
+  ~ In (hash_of_z k) (keys (mz_tree m)).
+Proof.
+  intros Hwf k Hnm Hin. apply in_keys in Hin. destruct Hin as (vv & Hin).
+  destruct (wf_leaf _ _ Hwf _ _ Hin) as (_ & _ & k' & e & Hin' & Heq).
+  apply (Hnm _ _ Hin'). congruence.
+Qed.
+
 (* document-level corollaries of Part A (these are restated in Properties/C02.v) *)
 Section C02.
 Variable T : tparams.
@@ -498,7 +533,7 @@ Proof.
   destruct (wf_member _ _ Hwf _ _ Hin) as ((_ & Hph) & Hk & _).
   assert (Hp : path_mt_entry Hd' (re_key e) = Ok k).
   { unfold path_mt_entry. rewrite Hph. exact Hk. }
-  destruct (proof_of_member T m Hwf Hd' (re_key e) k e Hp Hin) as (pr & vh & A & B & C & D & E0).
+  destruct (proof_of_member T m (mz_wf_in _ _ Hwf) Hd' (re_key e) k e Hp Hin) as (pr & vh & A & B & C & D & E0).
   exists pr, (mkvalue (re_val e) (Some (mz_hasher m))), vh. repeat split; auto.
 Qed.
 
@@ -513,7 +548,7 @@ Theorem c02_member_path : forall Hd' p k e,
     (tparams_ok T -> t_verify T (mz_root T m) pr k vh = Ok true).
 Proof.
   intros Hd' p k e Hp Hin. destruct (merklize_ds_wf _ _ _ _ _ _ Hmz) as (Hwf & _).
-  destruct (proof_of_member T m Hwf Hd' p k e Hp Hin) as (pr & vh & A & B & C & D & E0).
+  destruct (proof_of_member T m (mz_wf_in _ _ Hwf) Hd' p k e Hp Hin) as (pr & vh & A & B & C & D & E0).
   exists pr, (mkvalue (re_val e) (Some (mz_hasher m))), vh. repeat split; auto.
 Qed.
 
@@ -527,7 +562,7 @@ Theorem c02_nonmember : forall Hd' p k,
     (tparams_ok T -> forall v, v < tp_q T -> t_verify T (mz_root T m) pr k v = Ok true).
 Proof.
   intros Hd' p k Hml Hp Hk Hnm. destruct (merklize_ds_wf _ _ _ _ _ _ Hmz) as (Hwf & _).
-  exact (proof_of_nonmember T m Hwf Hd' p k Hml Hp Hk Hnm).
+  exact (proof_of_nonmember T m (mz_wf_in _ _ Hwf) Hd' p k Hml Hp Hk (not_member_not_key T m Hwf k Hnm)).
 Qed.
 
 Lemma hash_of_z_id z : 0 <= z < 2 ^ 256 -> hash_of_z z = z.
@@ -549,7 +584,8 @@ Proof.
   { intros k' e Hin Heq. destruct (wf_member _ _ Hwf _ _ Hin) as (_ & _ & Hk' & _).
     rewrite (hash_of_z_id k), (hash_of_z_id k') in Heq by (specialize (Hpos _ _ Hin); lia).
     subst k'. rewrite (assoc_nodup k _ e (wf_nodup _ _ Hwf) Hin) in Hnone. discriminate. }
-  destruct (proof_of_nonmember T m Hwf Hd' p k Hml Hp ltac:(lia) Hnm) as (pr & A & B & C & D).
+  destruct (proof_of_nonmember T m (mz_wf_in _ _ Hwf) Hd' p k Hml Hp ltac:(lia)
+              (not_member_not_key T m Hwf k Hnm)) as (pr & A & B & C & D).
   exists pr. rewrite (hash_of_z_id k) in C by lia. auto.
 Qed.
 
@@ -559,7 +595,7 @@ Theorem c02_entry_iff : forall Hd' p,
    (exists pr ov, mz_proof T Hd' m p = Ok (pr, ov) /\ ex pr = true)).
 Proof.
   intros Hd' p. destruct (merklize_ds_wf _ _ _ _ _ _ Hmz) as (Hwf & _).
-  exact (entry_iff_existence T m Hwf Hd' p).
+  exact (entry_iff_existence T m (mz_wf_in _ _ Hwf) Hd' p).
 Qed.
 
 (* the entries map holds exactly the entries of the document, in order, each under
@@ -599,6 +635,207 @@ Proof.
   - inversion H; subst. split; [congruence|]. intros (v & Hv). discriminate.
 Qed.
 End C02.
+
+(* ------------------------------------------------------------------ *)
+(* Part A': a caller-provided tree shared by several merklizers         *)
+(* ------------------------------------------------------------------ *)
+Section SharedTree.
+Variable T : tparams.
+Notation q := (tp_q T).
+Notation maxlev := (tp_maxlev T).
+
+Lemma merklize_entries_st_spec Hd : forall es t,
+  merklize_entries T Hd t es =
+  (let '(t', r) := merklize_entries_st T Hd t es in _ <- r ;; Ok t').
+Proof.
+  induction es as [|e es IH]; intros t; simpl; [reflexivity|].
+  destruct (entry_kv Hd e) as [kv| | |]; simpl; try reflexivity.
+  destruct (t_add T t (fst kv) (snd kv)) as [t1| | |]; simpl; try reflexivity.
+  apply IH.
+Qed.
+
+(* t' is t after some successful Add calls *)
+Inductive grows : tree -> tree -> Prop :=
+| grows_refl t : grows t t
+| grows_add t k v t1 t2 : t_add T t k v = Ok t1 -> grows t1 t2 -> grows t t2.
+
+Lemma merklize_entries_st_grows Hd : forall es t,
+  grows t (fst (merklize_entries_st T Hd t es)).
+Proof.
+  induction es as [|e es IH]; intros t; simpl; [constructor|].
+  destruct (entry_kv Hd e) as [kv| | |]; simpl; try constructor.
+  destruct (t_add T t (fst kv) (snd kv)) as [t1| | |] eqn:Ha; simpl; try constructor.
+  eapply grows_add; eauto.
+Qed.
+
+Definition tree_ok (t : tree) : Prop :=
+  wf maxlev t /\ forall kk vv, In (kk, vv) (leaves t) -> kk < q /\ vv < q.
+
+Lemma tree_ok_E : tree_ok E.
+Proof. split; [apply wf_E|intros kk vv []]. Qed.
+
+Lemma tree_ok_add t k v t' :
+  tree_ok t -> t_add T t k v = Ok t' ->
+  tree_ok t' /\ (forall x, In x (leaves t) -> In x (leaves t')).
+Proof.
+  intros (Hwf & Hf) Ha. apply t_add_ok in Ha. destruct Ha as (_ & _ & A & B & Ha).
+  destruct (wf_add maxlev _ _ _ _ Hwf Ha) as (Hwf' & Hperm).
+  split; [split; auto|].
+  - intros kk vv Hin. apply (Permutation_in _ Hperm) in Hin. destruct Hin as [Heq|Hin]; auto.
+    inversion Heq; subst. auto.
+  - intros x Hin. apply (Permutation_in _ (Permutation_sym Hperm)). now right.
+Qed.
+
+Lemma grows_ok t t' :
+  grows t t' -> tree_ok t -> tree_ok t' /\ (forall x, In x (leaves t) -> In x (leaves t')).
+Proof.
+  induction 1 as [t|t k v t1 t2 Ha Hg IH]; intros Hok; [auto|].
+  destruct (tree_ok_add _ _ _ _ Hok Ha) as (Hok1 & Hsub1).
+  destruct (IH Hok1) as (Hok2 & Hsub2). auto.
+Qed.
+
+(* a merklizer keeps its guarantees when the tree it refers to grows *)
+Lemma mz_in_grows m t' :
+  mz_in T m -> grows (mz_tree m) t' -> mz_in T (with_tree m t').
+Proof.
+  intros Hin Hg.
+  destruct (grows_ok _ _ Hg (conj (in_tree _ _ Hin) (in_field _ _ Hin))) as ((Hwf & Hf) & Hsub).
+  constructor; simpl; auto.
+  - apply Hin.
+  - intros k e Hine. destruct (in_member _ _ Hin _ _ Hine) as (A & B & C & vh & D0 & E0 & F0).
+    repeat split; try apply A; auto. exists vh. auto.
+Qed.
+
+(* MerklizeJSONLD on a non-empty shared tree *)
+Lemma merklize_shared_in Hd h es mp t t' :
+  Forall (entry_uses h) es -> tree_ok t ->
+  index_entries Hd es [] = Ok mp -> merklize_entries T Hd t es = Ok t' ->
+  mz_in T (mkmz mp t' h).
+Proof.
+  intros Huse (Hwft & Hft) Hidx Hmk.
+  destruct (merklize_entries_spec T _ _ _ _ Hmk) as (kvs & HF & Hadd).
+  destruct (add_list_ok_wf maxlev _ _ _ Hwft Hadd) as (Hwf & Hperm).
+  destruct (index_entries_spec _ _ _ _ Hidx) as (ks & HFk & Hshape).
+  pose proof (forall2_keys T _ _ _ _ HF HFk) as Hks. subst ks.
+  assert (Hndn : NoDup (map fst (map (norm) kvs))).
+  { assert (H0 : NoDup (map fst (map norm kvs ++ leaves t))).
+    { apply (Permutation_NoDup (l := keys t')).
+      - unfold keys. now apply Permutation_map.
+      - eapply wf_nodup_keys. exact Hwf. }
+    rewrite map_app in H0. now apply nodup_app_l in H0. }
+  assert (Hnd : NoDup (map fst kvs)).
+  { rewrite map_map in Hndn. simpl in Hndn.
+    rewrite <- (map_map fst hash_of_z) in Hndn. now apply nodup_map_inv in Hndn. }
+  specialize (Hshape Hnd). simpl in Hshape. subst mp.
+  assert (Hlen : List.length es = List.length kvs) by (eapply forall2_length; eauto).
+  assert (Hfst : map fst (combine (map fst kvs) es) = map fst kvs).
+  { clear -Hlen. revert es Hlen. induction kvs as [|kv kvs IH]; intros [|e es] Hlen; simpl in *;
+      try discriminate; auto. f_equal. apply IH. lia. }
+  constructor; simpl.
+  - exact Hwf.
+  - now rewrite Hfst.
+  - intros k e Hin.
+    destruct (combine_map_fst fst _ _ _ _ Hin) as (kv & -> & Hin').
+    destruct (in_combine_forall2 _ _ _ HF _ _ Hin') as (Hok & Hinkv & Hine).
+    destruct Hok as (Hkv & A & B & C & D0).
+    assert (Hu : entry_uses h e) by (rewrite Forall_forall in Huse; auto).
+    destruct (entry_kv_uses _ _ _ _ Hu Hkv) as (Hp & Hv).
+    repeat split; try (apply Hu); auto.
+    exists (snd kv). repeat split; auto.
+    apply (Permutation_in _ (Permutation_sym Hperm)). apply in_or_app. left.
+    change (hash_of_z (fst kv), hash_of_z (snd kv)) with (norm kv). now apply in_map.
+  - intros kk vv Hin. apply (Permutation_in _ Hperm) in Hin. apply in_app_or in Hin.
+    destruct Hin as [Hin|Hin]; [|auto].
+    apply in_map_iff in Hin. destruct Hin as (kv & Heq & Hinkv). unfold norm in Heq.
+    inversion Heq; subst kk vv.
+    destruct (forall2_in_r _ _ _ HF _ Hinkv) as (e & _ & Hok).
+    destruct Hok as (_ & A & B & C & D0). auto.
+Qed.
+
+Definition sh_inv (st : shared) : Prop :=
+  tree_ok (sh_tree st) /\ Forall (fun m => mz_in T (with_tree m (sh_tree st))) (sh_mzs st).
+
+Lemma sh_inv_grow st t' :
+  sh_inv st -> grows (sh_tree st) t' -> sh_inv (mksh t' (sh_mzs st)).
+Proof.
+  intros (Hok & Hall) Hg. split; simpl.
+  - now destruct (grows_ok _ _ Hg Hok).
+  - rewrite Forall_forall in *. intros m Hm.
+    exact (mz_in_grows (with_tree m (sh_tree st)) t' (Hall m Hm) Hg).
+Qed.
+
+Lemma gstep_inv Hd st g : sh_inv st -> sh_inv (fst (gstep_run T Hd st g)).
+Proof.
+  intros Hinv. destruct g as [cfg es|k v|i s]; simpl.
+  - set (h := hasher_or Hd cfg). set (es' := map (wrap_entry h (Some h)) es).
+    destruct (index_entries Hd es' []) as [mp| | |] eqn:Hidx; simpl; auto.
+    pose proof (merklize_entries_st_grows Hd es' (sh_tree st)) as Hg.
+    pose proof (merklize_entries_st_spec Hd es' (sh_tree st)) as Hspec.
+    destruct (merklize_entries_st T Hd (sh_tree st) es') as (t', r) eqn:Hst. simpl in Hg.
+    pose proof (sh_inv_grow st t' Hinv Hg) as Hinv'.
+    destruct r as [u| | |]; simpl; auto.
+    destruct Hinv' as (Hok' & Hall'). split; simpl; auto.
+    apply Forall_app. split; auto. constructor; [|constructor].
+    simpl in Hspec.
+    exact (merklize_shared_in Hd h es' mp (sh_tree st) t' (wrap_entry_uses h es)
+             (proj1 Hinv) Hidx Hspec).
+  - destruct (t_add T (sh_tree st) k v) as [t'| | |] eqn:Ha; simpl; auto.
+    apply (sh_inv_grow st t' Hinv). eapply grows_add; [exact Ha|constructor].
+  - destruct (nth_error (sh_mzs st) i); simpl; auto.
+Qed.
+
+Lemma grun_inv D : forall gs i st, sh_inv st -> sh_inv (fst (grun T D i st gs)).
+Proof.
+  induction gs as [|g gs IH]; intros i st Hinv; simpl; auto.
+  pose proof (gstep_inv (D i) st g Hinv) as H1.
+  destruct (gstep_run T (D i) st g) as (st1, o). simpl in H1.
+  specialize (IH (S i) st1 H1). destruct (grun T D (S i) st1 gs) as (st2, os). exact IH.
+Qed.
+
+Lemma sh_inv_init : sh_inv shared_init.
+Proof. split; [apply tree_ok_E|constructor]. Qed.
+
+(* after ANY history on the shared tree (other documents merklized into it — also
+   failing ones that leave leaves behind —, direct Add calls, any caller steps), every
+   merklizer created so far still satisfies the invariant w.r.t. the CURRENT tree *)
+Theorem shared_history_in D gs m :
+  let st := fst (grun T D 0 shared_init gs) in
+  In m (sh_mzs st) -> mz_in T (with_tree m (sh_tree st)).
+Proof.
+  intros st Hm. destruct (grun_inv D gs 0 shared_init sh_inv_init) as (_ & Hall).
+  rewrite Forall_forall in Hall. now apply Hall.
+Qed.
+
+Theorem c02_shared_member D gs m Hd' p k e :
+  let st := fst (grun T D 0 shared_init gs) in
+  let m' := with_tree m (sh_tree st) in
+  In m (sh_mzs st) -> path_mt_entry Hd' p = Ok k -> In (k, e) (mz_entries m) ->
+  exists pr v vh,
+    mz_proof T Hd' m' p = Ok (pr, Some v) /\ ex pr = true /\ v_val v = re_val e /\
+    value_mt_entry v = Ok vh /\
+    verify_proof (tp_hl T) (tp_hm T) (mz_root T m') pr (hash_of_z k) (hash_of_z vh) = true /\
+    (tparams_ok T -> t_verify T (mz_root T m') pr k vh = Ok true).
+Proof.
+  intros st m' Hm Hp Hin. pose proof (shared_history_in D gs m Hm) as Hinv. fold st in Hinv.
+  destruct (proof_of_member T m' Hinv Hd' p k e Hp Hin) as (pr & vh & A & B & C & D0 & E0).
+  exists pr, (mkvalue (re_val e) (Some (mz_hasher m'))), vh. repeat split; auto.
+Qed.
+
+Theorem c02_shared_nonmember D gs m Hd' p k :
+  let st := fst (grun T D 0 shared_init gs) in
+  let m' := with_tree m (sh_tree st) in
+  In m (sh_mzs st) -> (1 <= tp_maxlev T)%nat ->
+  path_mt_entry Hd' p = Ok k -> k < tp_q T ->
+  ~ In (hash_of_z k) (keys (sh_tree st)) ->
+  exists pr,
+    mz_proof T Hd' m' p = Ok (pr, None) /\ ex pr = false /\
+    verify_proof (tp_hl T) (tp_hm T) (mz_root T m') pr (hash_of_z k) 0 = true /\
+    (tparams_ok T -> forall v, v < tp_q T -> t_verify T (mz_root T m') pr k v = Ok true).
+Proof.
+  intros st m' Hm Hml Hp Hk Hnk. pose proof (shared_history_in D gs m Hm) as Hinv. fold st in Hinv.
+  exact (proof_of_nonmember T m' Hinv Hd' p k Hml Hp Hk Hnk).
+Qed.
+End SharedTree.
 
 (* ------------------------------------------------------------------ *)
 (* Part B: non-interference (C16)                                       *)
@@ -680,6 +917,89 @@ Proof.
   destruct (merklize_ds_wf _ _ _ _ _ _ Hm) as (Hwf & _).
   intros k e Hin. now destruct (wf_member _ _ Hwf _ _ Hin).
 Qed.
+
+(* ---- the same on a shared caller-provided tree, for whole histories ---- *)
+Lemma merklize_entries_st_indep h Hd Hd' : forall es t,
+  Forall (entry_uses h) es -> merklize_entries_st T Hd t es = merklize_entries_st T Hd' t es.
+Proof.
+  induction es as [|e es IH]; intros t Hu; simpl; [reflexivity|].
+  inversion Hu as [|x xs Hx Hxs]; subst.
+  rewrite (entry_kv_indep h e Hd Hd' Hx).
+  destruct (entry_kv Hd' e) as [kv| | |]; simpl; try reflexivity.
+  destruct (t_add T t (fst kv) (snd kv)); simpl; auto.
+Qed.
+
+Lemma upsert_forall {V} (P : V -> Prop) k v (mp : list (Z * V)) :
+  Forall P (map snd mp) -> P v -> Forall P (map snd (upsert Z.eqb k v mp)).
+Proof.
+  induction mp as [|(a, b) mp IH]; simpl; intros Hm Hv.
+  - constructor; auto.
+  - inversion Hm; subst. destruct (a =? k); simpl; constructor; auto.
+Qed.
+
+Lemma index_entries_forall (P : rdf_entry -> Prop) Hd : forall es mp mp',
+  Forall P es -> Forall P (map snd mp) -> index_entries Hd es mp = Ok mp' ->
+  Forall P (map snd mp').
+Proof.
+  induction es as [|e es IH]; intros mp mp' Hes Hmp H; simpl in H.
+  - inversion H; subst; auto.
+  - inversion Hes; subst. apply bind_ok in H. destruct H as (k & _ & H).
+    eapply IH; [assumption| |exact H]. now apply upsert_forall.
+Qed.
+
+Definition cfg_inv (st : shared) : Prop :=
+  Forall (fun m => forall k e, In (k, e) (mz_entries m) -> entry_uses (mz_hasher m) e) (sh_mzs st).
+
+(* histories in which every merklizer is configured and every caller object comes from
+   the merklizer's Options *)
+Definition gstep_ok (g : gstep) : bool :=
+  match g with
+  | GMerklize (Some _) _ => true
+  | GMerklize None _ => false
+  | GAdd _ _ => true
+  | GOn _ s => via_options s
+  end.
+
+Lemma gstep_indep Hd Hd' st g :
+  cfg_inv st -> gstep_ok g = true ->
+  gstep_run T Hd st g = gstep_run T Hd' st g /\ cfg_inv (fst (gstep_run T Hd' st g)).
+Proof.
+  intros Hinv Hok. destruct g as [[Hc|] es|k v|i s]; simpl in *; try discriminate.
+  - pose proof (wrap_entry_uses Hc es) as Hu.
+    rewrite (index_entries_indep Hc Hd Hd' _ [] Hu).
+    rewrite (merklize_entries_st_indep Hc Hd Hd' _ (sh_tree st) Hu).
+    split; [reflexivity|].
+    destruct (index_entries Hd' (map (wrap_entry Hc (Some Hc)) es) []) as [mp| | |] eqn:Hidx;
+      simpl; auto.
+    destruct (merklize_entries_st T Hd' (sh_tree st) (map (wrap_entry Hc (Some Hc)) es)) as (t', r).
+    destruct r as [u| | |]; simpl; auto.
+    apply Forall_app. split; auto. constructor; [|constructor]. simpl.
+    pose proof (index_entries_forall (entry_uses Hc) Hd' _ [] mp Hu (Forall_nil _) Hidx) as Hall.
+    rewrite Forall_forall in Hall. intros k e Hin. apply Hall.
+    apply in_map_iff. exists (k, e). auto.
+  - split; [reflexivity|]. destruct (t_add T (sh_tree st) k v); simpl; auto.
+  - split.
+    + destruct (nth_error (sh_mzs st) i) as [m|] eqn:Hn; [|reflexivity].
+      rewrite (run_step_indep (with_tree m (sh_tree st)) Hd Hd' s); auto.
+      simpl. unfold cfg_inv in Hinv. rewrite Forall_forall in Hinv.
+      apply Hinv. eapply nth_error_In; eauto.
+    + destruct (nth_error (sh_mzs st) i); simpl; auto.
+Qed.
+
+Theorem shared_noninterference D D' : forall gs i st,
+  cfg_inv st -> forallb gstep_ok gs = true -> grun T D i st gs = grun T D' i st gs.
+Proof.
+  induction gs as [|g gs IH]; intros i st Hinv Hok; simpl; [reflexivity|].
+  simpl in Hok. apply andb_true_iff in Hok. destruct Hok as (Hg & Hgs).
+  destruct (gstep_indep (D i) (D' i) st g Hinv Hg) as (Heq & Hinv').
+  rewrite Heq. destruct (gstep_run T (D' i) st g) as (st1, o). simpl in Hinv'.
+  rewrite (IH (S i) st1 Hinv' Hgs). reflexivity.
+Qed.
+
+Corollary shared_noninterference_init D D' gs :
+  forallb gstep_ok gs = true ->
+  grun T D 0 shared_init gs = grun T D' 0 shared_init gs.
+Proof. intros H. apply shared_noninterference; auto. constructor. Qed.
 
 (* every key and value hash the configured merklizer stores is produced by Hc *)
 Theorem configured_entries Hd F Hc ds m :
@@ -874,4 +1194,21 @@ Example d7_unset_entry_hasher_interferes :
   (r <- merklize_from_entries toyT (toyH 0) (toyH 5) None es ;; Ok (mz_root toyT r)) <>
   (r <- merklize_from_entries toyT (toyH 1) (toyH 5) None es ;; Ok (mz_root toyT r)).
 Proof. vm_compute. discriminate. Qed.
+(* a shared caller-provided tree: merklizer 0 reads its Root() before and after the tree
+   grows (a direct Add, then a second document); the roots differ and its entry still
+   gets an existence proof that verifies against the CURRENT root *)
+Definition es_a : list entry := [{| e_key := p_one; e_val := XStr "x"; e_dt := xsd_string |}].
+Definition es_b : list entry := [{| e_key := p_three; e_val := XBig (-5); e_dt := xsd_integer |}].
+Example shared_growth :
+  match grun toyT (fun _ => toyH 0) 0 shared_init
+             [GMerklize (Some (toyH 5)) es_a; GOn 0 SRoot; GAdd 77 5;
+              GMerklize (Some (toyH 5)) es_b; GOn 0 SRoot; GOn 0 (SProof PKOptions p_one);
+              GOn 1 (SProof PKOptions p_one)] with
+  | (st, [GOMerk (Ok _); GOStep (Some (ORoot r1)); GOAdd (Ok _); GOMerk (Ok _);
+          GOStep (Some (ORoot r2)); GOStep (Some (OProof (Ok (pr, Some _, _, Ok true))));
+          GOStep (Some (OProof (Err _)))]) =>
+      r1 <> r2 /\ ex pr = true /\ List.length (sh_mzs st) = 2%nat
+  | _ => False
+  end.
+Proof. vm_compute. split; [discriminate|split; reflexivity]. Qed.
 End Examples.
